@@ -29,6 +29,12 @@ func replayViolation(id string, cfg *CheckConfig, v *Violation, repo string) {
 	if spec == nil || spec.Mode == "none" {
 		return
 	}
+	if v.Kind == "memsafety" {
+		// undefined behaviour (type-confused access through unsafe): no sanitizer or test
+		// confirms it; reported for triage by reading
+		v.Note += " (not replayable: memory-safety violation, triage by reading the site)"
+		return
+	}
 	if spec.Mode == "native" {
 		replayNative(id, spec, v, repo)
 		return
